@@ -80,6 +80,21 @@ CLAIMED = {
         text="Exploration: per pull of every generated run the ranks of every ranking depth must be a permutation ordered by the reference lower confidence value (from the ledger), the vector handed to np.random.choice must equal 1/(h r C) entry by entry and sum to one, the returned point must have been sampled from the drawn cell's descendant at the depth cap and lie in the drawn cell, and the reward must be credited exactly to that chain. The sampling law is thus decided through the weights used, not statistically.",
         note="Binary-child partitions only (others: open finding D10). Ties in LCB to 1e-12.",
         ref="4/C13"),
+    "C14": dict(
+        technique="differential property-based testing (Hypothesis): same case twice in one process; a RuleBasedStateMachine interleaving two instances vs. each alone; fresh-subprocess differential under different PYTHONHASHSEED / heap layouts and against the long-lived worker after a polluter instance; deep comparison of the user's domain object",
+        text="Exploration: identical seed + constructor arguments + reward law must give bit-identical point sequences and recommendation (in-process repeat, and across fresh processes with different hash seeds and shifted object ids); a Hypothesis state machine chooses interleavings of two independently constructed instances and each must behave as it does alone; the same case run inside a worker that has executed hundreds of other instances (and a polluter of the same class just before) must equal the fresh-process run, which exposes class-level / module-level state; the domain argument is compared with a deep copy taken before construction (values, element types, inner-list identity).",
+        note="Interleavings use RNG-free algorithms on RNG-free partitions (the property's quantifier). A crash common to both runs is aborted. Subprocess differential: 96 cases per quick run (process start-up bound).",
+        ref="4/C14"),
+    "C15": dict(
+        technique="differential property-based testing (Hypothesis): relabelled time arguments vs. 1..T, and a RuleBasedStateMachine inserting get_last_point() queries vs. the query-free run",
+        text="Exploration: every generated run is executed with labels 1..T and again with labels t0+i (t0 in {0,17,-3,1e6,2}) or arbitrary strictly increasing labels; point sequences and recommendation must coincide. A state machine inserts 1-5 consecutive recommendation queries at Hypothesis-chosen rounds for T-HOO, HCT, VHCT, Zooming and POO and compares with the query-free run. Point-dependent rewards propagate any drift.",
+        note="StoSOO and StroquOOL read time by design and are excluded (the property's own list).",
+        ref="4/C15"),
+    "C16": dict(
+        technique="metamorphic property-based testing (Hypothesis): base run vs. run on the affine image of the box fed with the same rewards and RNG outcomes; bit-exact comparison for power-of-two scalings and dyadic translations, 1e-9 tolerance class for arbitrary maps on coordinate-free algorithms",
+        text="Exploration: for every generated configuration and map x -> a x + t the image run must produce exactly the mapped points and recommendation. In the exact class (a = 2^k; dyadic translations of dyadic boxes on midpoint partitions) the comparison is bit for bit after verifying that the map is exactly invertible at each produced point; arbitrary maps are compared to 1e-9 of the box scale for the algorithms that never compare coordinates. DOO's default diameter function is checked under translations only (documented exception).",
+        note="The image run receives the base run's rewards by index. Zooming and DOO-default are only checked in the exact class.",
+        ref="4/C16"),
 }
 
 NOT_YET = "check not built yet in this round (planned in DESIGN.md section 4); property-based testing applies"
